@@ -2,9 +2,13 @@ package main
 
 import (
 	"bytes"
+	"encoding/base64"
 	"encoding/binary"
 	"fmt"
 	cid "github.com/ipfs/go-cid"
+	"github.com/ipld/go-ipld-prime"
+	"github.com/ipld/go-ipld-prime/codec/dagjson"
+	"github.com/mr-tron/base58"
 	"github.com/ucan-wg/go-ucan/pkg/command"
 	"math"
 	"os"
@@ -293,6 +297,35 @@ func genDecoders(c *Ctx) {
 		binary.AppendUvarint(nil, 33554431),
 		binary.AppendUvarint(nil, 1<<63),
 		append(binary.AppendUvarint(nil, 1<<62), 0xa2),
+	}
+	// CAR containers whose header is a well-formed DAG-CBOR map of the wrong shape: roots / version of every kind
+	for _, roots := range []datamodel.Node{basicnode.NewString("x"), basicnode.NewInt(1), basicnode.NewBool(true), basicnode.NewBytes([]byte{1}), basicnode.NewFloat(1.5),
+		datamodel.Null, mkMap(), mkList(basicnode.NewInt(1)), mkList(), mkList(mkList())} {
+		for _, version := range []datamodel.Node{basicnode.NewInt(1), basicnode.NewInt(2), basicnode.NewString("1"), datamodel.Null, mkList()} {
+			hb := cborOf(mkMap(ent{"roots", roots}, ent{"version", version}))
+			car := append(binary.AppendUvarint(nil, uint64(len(hb))), hb...)
+			hostile = append(hostile, car, []byte(base64.StdEncoding.EncodeToString(car)))
+		}
+	}
+	for _, hb := range [][]byte{cborOf(mkMap()), cborOf(mkList()), cborOf(basicnode.NewInt(1)), cborOf(mkMap(ent{"roots", mkList()})), cborOf(mkMap(ent{"version", basicnode.NewInt(1)}))} {
+		hostile = append(hostile, append(binary.AppendUvarint(nil, uint64(len(hb))), hb...))
+	}
+	// did:key identifiers of every accepted multicodec with no, one, or too little key material, alone and as
+	// the issuer of an (unsigned) envelope
+	for _, code := range []uint64{0xed, 0xe7, 0x1200, 0x1201, 0x1202, 0x1205} {
+		for _, material := range [][]byte{nil, {0x02}, {0x04}, {0x00}, {0x02, 0x00}, bytes.Repeat([]byte{0x03}, 20)} {
+			text := "did:key:z" + base58.Encode(append(binary.AppendUvarint(nil, code), material...))
+			hostile = append(hostile, []byte(text))
+			for _, tag := range []string{"ucan/dlg@1.0.0-rc.1", "ucan/inv@1.0.0-rc.1"} {
+				pay := mkMap(ent{"iss", basicnode.NewString(text)}, ent{"aud", basicnode.NewString(text)}, ent{"sub", basicnode.NewString(text)}, ent{"cmd", basicnode.NewString("/")},
+					ent{"pol", mkList()}, ent{"args", mkMap()}, ent{"prf", mkList()}, ent{"nonce", basicnode.NewBytes(bytes.Repeat([]byte{1}, 12))}, ent{"exp", datamodel.Null})
+				env := mkList(basicnode.NewBytes([]byte{1, 2, 3}), mkMap(ent{"h", basicnode.NewBytes([]byte{0x34, 0xed, 0x01, 0x71})}, ent{tag, pay}))
+				hostile = append(hostile, cborOf(env))
+				if js, err := ipld.Encode(env, dagjson.Encode); err == nil {
+					hostile = append(hostile, js)
+				}
+			}
+		}
 	}
 	for _, h := range hostile {
 		for _, ep := range byteEntryPoints {
